@@ -90,6 +90,17 @@ def krylov(cx, method="cg", n=2, ncols=1, withE=False, withM=False, posdef=True,
         gd = cx.sym("gd", ba + (n,), positive=True, lo=0.5, hi=2)
         Amat = torch.diag_embed(gd)
         A = LinearOperator.m(Amat, is_hermitian=True)
+    elif opkind == "scalar":
+        # A = g*I: every Krylov method converges in one iteration for every right-hand side and shift
+        g = cx.sym("g", ba + (1,), positive=True, lo=0.5, hi=2)
+        Amat = torch.diag_embed(g.expand(*ba, n))
+        A = LinearOperator.m(Amat, is_hermitian=True)
+    elif opkind.startswith("fixed_nonsym"):
+        # a fixed non-normal matrix (the right-hand side stays symbolic): full convergence in n iterations is reachable
+        fam = {"fixed_nonsym0": [[2.0, 1.0], [-0.5, 1.5]], "fixed_nonsym1": [[1.0, 2.0], [0.25, -1.5]],
+               "fixed_nonsym2": [[0.5, -1.0], [2.0, 1.0]]}[opkind]
+        Amat = cx.const(torch.tensor(fam, dtype=torch.float64))
+        A = LinearOperator.m(Amat, is_hermitian=False)
     elif opkind == "sym":
         a = cx.sym("a0", ba + (n, n))
         Amat = (a + a.transpose(-2, -1)) * 0.5
@@ -196,6 +207,18 @@ def configs(tier):
         # several columns without E: the stopping test is per column
         add("krylov/%s/diag/posdef/A/c2/it1" % method, krylov, method=method, n=2, ncols=2, posdef=True, max_niter=1, opkind="diag",
             opts={"hunt_always": True})
+    # batched shifts with several columns (layout of E in the set-up shared by the Krylov methods; gmres with E and 2 columns is
+    # the known finding, bicgstab is in the thorough tier)
+    add("krylov/cg/scalar/posdef/AE/Ebatch/c2/it1", krylov, method="cg", n=2, ncols=2, posdef=True, max_niter=1,
+        opkind="scalar", withE=True, batch="Ebatch")
+    if tier == "thorough":
+        add("krylov/bicgstab/scalar/posdef/AE/Ebatch/c2/it1", krylov, method="bicgstab", n=2, ncols=2, posdef=True, max_niter=1,
+            opkind="scalar", withE=True, batch="Ebatch", opts={"budget_s": 1200, "max_paths": 400})
+    # normal equations on a fixed non-normal matrix, enough iterations for exact convergence
+    for method in ("cg", "gmres"):
+        add("krylov/%s/fixed_nonsym0/normal/A/it2" % method, krylov, method=method, n=2, ncols=1, posdef=False, max_niter=2,
+            opkind="fixed_nonsym0")
+    add("krylov/cg/fixed_nonsym2/normal/A/it2", krylov, method="cg", n=2, ncols=1, posdef=False, max_niter=2, opkind="fixed_nonsym2")
     add("krylov/cg/sym/normal/A/it1", krylov, method="cg", n=2, ncols=1, posdef=False, max_niter=1, opkind="sym")
     add("krylov/gmres/mvrmv/normal/A/it1", krylov, method="gmres", n=2, ncols=1, posdef=False, max_niter=1, opkind="mvrmv")
     add("krylov/cg/mvrmv/nonhermitian/A/it1", krylov, method="cg", n=2, ncols=1, posdef=True, max_niter=1, opkind="mvrmv")
